@@ -259,6 +259,11 @@ def template_programs():
                               "main": Fn([], Block([Let("a", List(I(1))), Expr(Call("f", V("a"))), Print(V("a"))]))})
     add("param_scalar_copied", {"f": Fn(["n"], Block([Expr(Asg(V("n"), I(9))), Print(V("n"))])),
                                 "main": Fn([], Block([Let("a", I(1)), Expr(Call("f", V("a"))), Print(V("a"))]))})
+    # scalar conversions with `as`: int <-> float truncates toward zero, 0 is false
+    add("casts_scalar", main(*([Print(As(F(n, sh), "int"), As(Un("-", F(n, sh)), "int"), As(F(n, sh), "bool"), As(F(n, sh), "float")) for n, sh in ((5, 1), (7, 2), (1, 1), (15, 3), (8, 0))] +
+                               [Print(As(I(n), "float"), As(I(n), "bool"), As(Un("-", I(n)), "float"), As(I(n), "int")) for n in (0, 1, 2, 7)] +
+                               [Print(As(B(b), "int"), As(B(b), "float"), As(B(b), "bool")) for b in (True, False)] +
+                               [Let("x", As(Bin("+", As(I(7), "float"), F(1, 1)), "int")), Print(Bin("*", V("x"), I(2)), Bin("/", As(V("x"), "float"), F(4, 0)))])))
     # for iterates over a snapshot
     add("for_snapshot_push", main(Let("l", List(I(1), I(2))),
                                   For("x", V("l"), Block([Expr(MCall(V("l"), "push", Bin("*", V("x"), I(10)))),
